@@ -81,8 +81,24 @@ class SQLDumper(DumperBase):
         self.batch_size = options.get('batch_size', 1000)
         self.use_bloom_filter = options.get('use_bloom_filter', True)
 
+    def flag_fields(self):
+        return [(name, type_) for name, type_ in ((self.updated_column, 'boolean'), (self.updated_id_column, 'any')) if name]
+
+    def process_datapackage(self, datapackage):
+        datapackage = super(SQLDumper, self).process_datapackage(datapackage)
+        # the flags are fields of the rows that continue downstream: the schema declares them
+        for resource in datapackage.descriptor['resources']:
+            if resource['name'] in self.converted_resources:
+                fields = resource.setdefault('schema', {}).setdefault('fields', [])
+                for name, type_ in self.flag_fields():
+                    if not any(field['name'] == name for field in fields):
+                        fields.append(dict(name=name, type=type_))
+        datapackage.commit()
+        return datapackage
+
     def normalize_for_engine(self, dialect, resource, schema_descriptor, originals):
         actions = {}
+        names = set(field['name'] for field in schema_descriptor['fields'])
         for field in schema_descriptor['fields']:
             if field['type'] in ['array', 'object']:
                 assert dialect in OBJECT_FIXERS, "Don't know how to handle %r connection dialect" % dialect
@@ -92,7 +108,7 @@ class SQLDumper(DumperBase):
             # the writer gets (and converts in place) a copy,
             # the row itself continues downstream unchanged
             originals.append(row)
-            row = dict(row)
+            row = dict((k, v) for k, v in row.items() if k in names)
             for name, action_list in actions.items():
                 for action in action_list:
                     row[name] = action(row.get(name))
@@ -111,7 +127,10 @@ class SQLDumper(DumperBase):
             storage = Storage(self.engine, prefix=table_name)
             if mode == 'rewrite' and '' in storage.buckets:
                 storage.delete('')
-            schema_descriptor = resource.res.descriptor['schema']
+            # (the table has the columns of the data, not the flags this step reports)
+            flags = [name for name, _ in self.flag_fields()]
+            schema_descriptor = dict(resource.res.descriptor['schema'])
+            schema_descriptor['fields'] = [f for f in schema_descriptor['fields'] if f['name'] not in flags]
             schema = self.normalize_schema_for_engine(self.engine.dialect.name,
                                                       schema_descriptor)
             if '' not in storage.buckets:
